@@ -278,6 +278,47 @@ theorem C16_remove_zero_columns (f : Aff α) (x : List α) (hf : f.WF) (hx : x.l
     simpa using this)
   simpa [keepOf] using this
 
+/-- drop the entries whose position (counted from `i`) is listed -/
+def dropIdxAux {γ : Type} : Nat → List Nat → List γ → List γ
+  | _, _, [] => []
+  | i, idxs, v :: vs => if idxs.contains i then dropIdxAux (i+1) idxs vs else v :: dropIdxAux (i+1) idxs vs
+
+theorem removeRowsAux_map {γ : Type} (g : List α × α → γ) (i : Nat) (idxs : List Nat) (rows : List (List α × α)) :
+    (Aff.removeRowsAux i idxs rows).map g = dropIdxAux i idxs (rows.map g) := by
+  induction rows generalizing i with
+  | nil => simp [Aff.removeRowsAux, dropIdxAux]
+  | cons r rs ih =>
+    simp only [Aff.removeRowsAux, List.map_cons, dropIdxAux]
+    split
+    · exact ih (i+1)
+    · simp only [List.map_cons]; rw [ih (i+1)]
+
+/-- `remove_rows(idxs)`: the outputs of the remaining rows are unchanged — the result computes `f(x)` with the listed
+    components dropped -/
+theorem C16_remove_rows (f : Aff α) (idxs : List Nat) (x : List α) (hb : f.bias.length = f.mat.length) :
+    (f.removeRows idxs).apply x = dropIdxAux 0 idxs (f.apply x) := by
+  unfold Aff.removeRows
+  rw [C16_from_rows, removeRowsAux_map]
+  congr 1
+  have := C16_from_rows f.indim f.rows x
+  rw [C16_rows_roundtrip f hb] at this
+  exact this.symm
+
+/-- `remove_zero_rows`: only outputs that are identically `0` (zero coefficients, zero bias) are dropped -/
+theorem C16_remove_zero_rows (f : Aff α) (x : List α) :
+    (f.removeZeroRows).apply x =
+      (f.rows.filter (fun r => !(isZeroVec r.1 && r.2 == 0))).map (fun rb => dot rb.1 x + rb.2) ∧
+    ∀ rb ∈ f.rows, (isZeroVec rb.1 && rb.2 == 0) = true → dot rb.1 x + rb.2 = 0 := by
+  refine ⟨by unfold Aff.removeZeroRows; rw [C16_from_rows], ?_⟩
+  intro rb _ h
+  simp only [Bool.and_eq_true, beq_iff_eq] at h
+  have hz : ∀ e ∈ rb.1, e = 0 := by
+    intro e he
+    have := h.1
+    unfold isZeroVec at this
+    simpa using (List.all_eq_true.mp this) e he
+  rw [dot_all_zero rb.1 x hz, h.2]; simp
+
 end conversions
 
 end AV
